@@ -740,6 +740,10 @@ def faults_ext(model, want=lambda *a: True):
                     for rule, doc in bad_docs + extra:
                         d2 = d._replace(**{key: members[:j] + (f._replace(doc=doc),) + members[j + 1:]})
                         yield (rule, 'doc/member', '%s.%s.%s %s' % (ns_name, d.name, f.name, doc), _put_def(model, ns_name, fi, di, d2))
+                        if d.doc is not None:
+                            # the same member doc in a type that has no doc of its own
+                            yield (rule, 'doc/member-of-undocumented-type', '%s.%s.%s %s' % (ns_name, d.name, f.name, doc),
+                                   _put_def(model, ns_name, fi, di, d2._replace(doc=None)))
             elif isinstance(d, Route):
                 for rule, doc in bad_docs + extra:
                     if 'zzunknown` ref' in doc and '.' not in doc.split('`')[1]:
